@@ -1,14 +1,18 @@
 package main
 
 import (
+	"flag"
+
 	"verifharness/hx"
 	"verifharness/mods/htlc"
 )
 
 func main() {
+	genesis := flag.Bool("genesis", false, "also generate `htlc export` / `htlc reimport` operations inside histories (C12)")
 	o := hx.ParseOpts()
 	env := hx.NewEnv()
 	r := htlc.New(env)
+	r.Genesis = *genesis
 	hx.RunHistories(env, r, o)
 	r.WriteStats(o.Out + ".stats")
 }
